@@ -6,9 +6,16 @@ apply the patch, run `VERIF_REPO=<wt> ./check <Id> --tier <tier>` (property take
 meta.json 'property', may be a list), expect exit 1 and a VIOLATION line; remove the worktree.
 Writes seeded/RESULTS.json and prints a table.  Usage: tools/seeded.py [--tier quick] [--only C11[/name]] [-j N]
 """
-import argparse, json, os, subprocess, sys, glob, shutil, hashlib, time
+import argparse, json, os, subprocess, sys, glob, shutil, hashlib, time, fcntl, contextlib
 from concurrent.futures import ThreadPoolExecutor
 V = os.path.dirname(os.path.dirname(os.path.abspath(__file__)))
+
+@contextlib.contextmanager
+def wt_lock():
+    f = open("/var/tmp/.seeded-worktree.lock", "w")
+    fcntl.flock(f, fcntl.LOCK_EX)
+    try: yield
+    finally: f.close()
 
 def run_one(item, tier):
     pid, name, d = item
@@ -22,9 +29,10 @@ def run_one(item, tier):
     wt = "/var/tmp/seeded-%s-%s-%s" % (pid, name.replace("/", "_"), hashlib.sha1(d.encode()).hexdigest()[:6])
     res = {"id": pid, "name": name, "props": props, "checks": {}}
     try:
-        subprocess.run(["git", "-C", "/repo", "worktree", "remove", "--force", wt], capture_output=True)
-        shutil.rmtree(wt, ignore_errors=True)
-        r = subprocess.run(["git", "-C", "/repo", "worktree", "add", "--detach", wt, "HEAD"], capture_output=True, text=True)
+        with wt_lock():
+            subprocess.run(["git", "-C", "/repo", "worktree", "remove", "--force", wt], capture_output=True)
+            shutil.rmtree(wt, ignore_errors=True)
+            r = subprocess.run(["git", "-C", "/repo", "worktree", "add", "--detach", wt, "HEAD"], capture_output=True, text=True)
         if r.returncode: return dict(res, error="worktree: " + r.stderr[-300:])
         r = subprocess.run(["git", "-C", wt, "apply", os.path.join(d, "patch.diff")], capture_output=True, text=True)
         if r.returncode: return dict(res, error="patch does not apply: " + r.stderr[-300:])
@@ -38,8 +46,9 @@ def run_one(item, tier):
     except Exception as e:
         res["error"] = repr(e)
     finally:
-        subprocess.run(["git", "-C", "/repo", "worktree", "remove", "--force", wt], capture_output=True)
-        shutil.rmtree(wt, ignore_errors=True)
+        with wt_lock():
+            subprocess.run(["git", "-C", "/repo", "worktree", "remove", "--force", wt], capture_output=True)
+            shutil.rmtree(wt, ignore_errors=True)
     return res
 
 def main():
